@@ -195,7 +195,7 @@ func Encode(ctx context.Context, param EncodeParam, out bufiox.Writer) (totalLen
 		return nil, fmt.Errorf("ttHeader write kv info failed, %s", err.Error())
 	}
 
-	if uint32(headerInfoSize) > MaxHeaderSize {
+	if headerInfoSize > int(MaxHeaderSize) {
 		return nil, fmt.Errorf("invalid header length[%d]", headerInfoSize)
 	}
 	binary.BigEndian.PutUint16(headerInfoSizeField, uint16(headerInfoSize/4))
